@@ -74,7 +74,7 @@ def gen_states(rng, vp=None, wf=True):
     raise RuntimeError("no state")
 
 
-def gen_project(rng, max_files=5, max_pats=4, shared_lines=True, mixed_endings=True, vp=None, ascii_names=False):
+def gen_project(rng, max_files=5, max_pats=4, shared_lines=True, mixed_endings=True, vp=None, ascii_names=False, license_file=False):
     vpat, old, new, flags, d2 = gen_states(rng, vp)
     tree = refimpl.tokenize(vpat)
     templates = [t for t in RAW_TEMPLATES if "{pep440_version}" not in t or
@@ -116,6 +116,25 @@ def gen_project(rng, max_files=5, max_pats=4, shared_lines=True, mixed_endings=T
         layout.append({"name": name, "raws": raws, "sep": sep, "lines": lines,
                        "mixed": mixed_endings and rng.random() < 0.15 and len(lines) > 2,
                        "final_newline": rng.random() < 0.6, "bom": rng.random() < 0.1})
+    if rng.random() < 0.2 and "pkg.txt" not in names:
+        # overlapping configured patterns: an enclosing pattern and the bare version in one file.  Every pattern is the
+        # first claimant somewhere, and replacing the inner or the enclosing match gives the same text, so the
+        # expectation is still the re-materialised layout; this exercises the overlap suppression of iter_matches.
+        raws = ["{version}", "pkg-{version}.tar.gz"]
+        rng.shuffle(raws)
+        lines = [("occ", [("{version}", rng.choice(["see ", "", "v: "]), ""), ("pkg-{version}.tar.gz", "", rng.choice(["", " here"]))], " and "),
+                 ("occ", [("pkg-{version}.tar.gz", "latest = ", rng.choice(["", " # x"]))], "")]
+        if rng.random() < 0.5:
+            lines.append(("occ", [("{version}", "again ", "")], ""))
+        for _ in range(rng.randint(0, 2)):
+            lines.insert(rng.randint(0, len(lines)), ("noise", rng.choice(NOISE)))
+        layout.append({"name": "pkg.txt", "raws": raws, "sep": rng.choice(SEPS), "lines": lines, "mixed": False,
+                       "final_newline": rng.random() < 0.6, "bom": False, "overlap": True})
+    if "YYYY" in vpat and (license_file or rng.random() < 0.3) and "LICENSE" not in names:
+        # a file whose only pattern is a partial one that most bumps leave unchanged (a copyright year)
+        layout.append({"name": "LICENSE", "raws": ["Copyright (c) YYYY"], "sep": "\n",
+                       "lines": [("noise", "MIT License"), ("occ", [("Copyright (c) YYYY", "", " The Authors")], ""), ("noise", "Permission is hereby granted")],
+                       "mixed": False, "final_newline": True, "bom": False})
     pr = {"vp": vpat, "old_state": old, "new_state": new, "flags": flags, "date": [d2.year, d2.month, d2.day], "layout": layout,
           "old": refimpl.render(tree, old), "new": refimpl.render(tree, new),
           "old_vinfo": vinfo_of_state(old), "new_vinfo": vinfo_of_state(new)}
@@ -168,6 +187,8 @@ def fixture_ok(pr):
     (surrounding text matches no configured pattern).  Checked with an independent regex built from the
     reference tokenisation and the README part table."""
     for f in pr["layout"]:
+        if f.get("overlap"):
+            continue            # deliberately overlapping patterns (see gen_project)
         text = pr["files"][f["name"]]
         lines = re.split(r"\r\n|\r|\n", text) if not f["mixed"] else text.split("\r\n")
         rxs = []
